@@ -514,24 +514,60 @@ def main_check(prop, modname, argv):
     units = mod.units(tier, seed)
     sel = [i for i, u in enumerate(units) if not a.only or a.only in u.name]
     ctx = mp.get_context('fork')
-    results = []
-    with ctx.Pool(min(a.jobs, max(1, len(sel))), maxtasksperchild=1) as pool:
-        asyncs = [(i, pool.apply_async(_worker, ((modname, i, tier, seed),))) for i in sel]
-        for i, ar in asyncs:
-            u = units[i]
-            try:
-                r = ar.get(timeout=u.timeout_s + 120)
-            except mp.TimeoutError:
-                r = dict(unit=u.name, params=u.params, paths=0, obligations=0, discharged=0, syntactic=0,
-                         unknown=[], cex=[], queries=0, feas_queries=0, solver_s=0.0, samples=[],
-                         error='inconclusive: worker time cap', stretch=u.stretch, wall_s=u.timeout_s,
-                         raised_paths=0, notes=[], distinct=0)
-            except Exception as e:
-                r = dict(unit=u.name, params=u.params, paths=0, obligations=0, discharged=0, syntactic=0,
-                         unknown=[], cex=[], queries=0, feas_queries=0, solver_s=0.0, samples=[],
-                         error='harness error: %s' % e, stretch=u.stretch, wall_s=0, raised_paths=0,
-                         notes=[], distinct=0)
-            results.append(r)
+
+    def _dead(u, why):
+        return dict(unit=u.name, params=u.params, paths=0, obligations=0, discharged=0, syntactic=0, unknown=[], cex=[],
+                    queries=0, feas_queries=0, solver_s=0.0, samples=[], error=why, stretch=u.stretch,
+                    wall_s=u.timeout_s, raised_paths=0, notes=[], distinct=0)
+
+    def _child(conn, idx):
+        try:
+            r = _worker((modname, idx, tier, seed))
+        except BaseException as e:  # noqa
+            r = _dead(units[idx], 'harness error: %s: %s' % (type(e).__name__, e))
+        try:
+            conn.send(r)
+        finally:
+            conn.close()
+    # one process per unit, at most `jobs` at a time, each with its own wall-clock cap (a worker stuck inside the
+    # solver is killed and the unit reported inconclusive; it never delays or hides the other units)
+    pending = list(sel)
+    running = {}
+    done = {}
+    jobs = max(1, min(a.jobs, len(sel) or 1))
+    while pending or running:
+        while pending and len(running) < jobs:
+            idx = pending.pop(0)
+            pc_, cc_ = ctx.Pipe(duplex=False)
+            p = ctx.Process(target=_child, args=(cc_, idx), daemon=True)
+            p.start()
+            cc_.close()
+            running[idx] = (p, pc_, time.time())
+        progressed = False
+        for idx, (p, conn, ts) in list(running.items()):
+            u = units[idx]
+            r = None
+            if conn.poll():
+                try:
+                    r = conn.recv()
+                except (EOFError, OSError):
+                    r = _dead(u, 'harness error: worker died without a result')
+            elif not p.is_alive():
+                r = _dead(u, 'harness error: worker died without a result (exit code %s)' % p.exitcode)
+            elif time.time() - ts > u.timeout_s + 120:
+                p.kill()
+                r = _dead(u, 'inconclusive: worker time cap (%ds)' % (u.timeout_s + 120))
+            if r is not None:
+                p.join(timeout=5)
+                if p.is_alive():
+                    p.kill()
+                conn.close()
+                done[idx] = r
+                del running[idx]
+                progressed = True
+        if not progressed:
+            time.sleep(0.05)
+    results = [done[i_] for i_ in sel]
     return finish(prop, mod, tier, seed, units, results, time.time() - t0)
 
 
